@@ -122,6 +122,11 @@ def special_family():
         out.append({'name': 'dangling-into-ns', 'tasks': tasks, 'configs': {
             'inner': {'medium': 'json', 'tasks': ['X'], 'values': {}},
             'top': {'medium': 'json', 'tasks': ['C'], 'values': {}, 'uses': [{'config': 'inner', 'as': 'n'}]}}, 'root': 'top', 'variants': {'v': []}})
+    # an OPTIONAL by-name input of a root-level task that exists only inside a namespace: absent (default), never bound into the namespace
+    tasks = {'Cal': T('calibration'), 'R': T('report', inputs=[{'how': 'opt_name', 'ref': 'calibration', 'default': 0}])}
+    out.append({'name': 'optional-dangling-into-ns', 'tasks': tasks, 'configs': {
+        'inner': {'medium': 'json', 'tasks': ['Cal'], 'values': {}},
+        'top': {'medium': 'json', 'tasks': ['R'], 'values': {}, 'uses': [{'config': 'inner', 'as': 'aux'}]}}, 'root': 'top', 'variants': {'v': []}})
     # nested namespaces with fully qualified references written relative to the declaring namespace
     tasks = {'S': T('source', 'raw'), 'U': T('user', inputs=[bn('etl::raw:source')]), 'V': T('v', inputs=[bn('etl::source')])}
     out.append({'name': 'nested-qualified', 'tasks': tasks, 'configs': {
